@@ -240,14 +240,12 @@ func judgeSet(c *core.Ctx, mode string, s *sync2.Set[int], univ []int, init map[
 			return fail("final:Has", fmt.Sprintf("final Has(%d)=%v but Slice membership is %v", v, s.Has(v), final[v]))
 		}
 	}
+	inUniv := make(map[int]bool, len(univ))
+	for _, u := range univ {
+		inUniv[u] = true
+	}
 	for v := range final {
-		found := false
-		for _, u := range univ {
-			if u == v {
-				found = true
-			}
-		}
-		if !found {
+		if !inUniv[v] {
 			return fail("final:invented", fmt.Sprintf("final set contains %d which was never added", v))
 		}
 	}
